@@ -32,7 +32,7 @@ def conjuncts(f):
     return [f]
 
 
-def build_query(c, goal, hyps=(), hints=(), path_len=None, negate=True):
+def build_query(c, goal, hyps=(), hints=(), path_len=None, negate=True, full=False):
     """Assertions for  defs ∧ hyps ∧ path ∧ hints ∧ ¬goal  restricted to the cone of the goal.
 
     hyps: preconditions (formulas); hints: proof hints (formulas that are themselves
@@ -75,9 +75,43 @@ def build_query(c, goal, hyps=(), hints=(), path_len=None, negate=True):
                 if not v <= rel:
                     rel |= v
                     changed = True
-    for x, v in others:
-        if (v & rel) or not v:
-            chosen.append(x)
+    if full:
+        # undirected closure: hypotheses / path conditions over derived variables pull in the definitions of
+        # those variables (needed when the relevance flows forward through purified terms, e.g. sqrt, max)
+        used_o = [False] * len(others)
+        changed = True
+        while changed:
+            changed = False
+            for i, (x, v) in enumerate(others):
+                if not used_o[i] and ((v & rel) or not v):
+                    used_o[i] = True
+                    chosen.append(x)
+                    if not v <= rel:
+                        rel |= v
+                        changed = True
+            for i, (names, f, v) in enumerate(defs):
+                if not used_def[i] and ((names & rel) or (v & rel)):
+                    used_def[i] = True
+                    chosen.append(f)
+                    new = (v | names) - rel
+                    if new:
+                        rel |= new
+                        changed = True
+            for name, vs in links:
+                if (name in rel or (vs & rel)) and not (vs | {name}) <= rel:
+                    rel |= vs | {name}
+                    changed = True
+            for i, (x, v) in enumerate(pool_h):
+                if not used_h[i] and ((v & rel) or not v):
+                    used_h[i] = True
+                    chosen.append(x)
+                    if not v <= rel:
+                        rel |= v
+                        changed = True
+    else:
+        for x, v in others:
+            if (v & rel) or not v:
+                chosen.append(x)
     for a in S.ground_axioms(c):
         if E.fv(a) <= rel:
             chosen.append(a)
